@@ -21,6 +21,12 @@ C14Run == ev.ev = "run" =>
           \/ Rep("C14", "reported records are not exactly the matching records, once each, in input order", [want |-> Reported(ev.input, ev.filter), got |-> ev.output]))
     /\ (ev.stable \/ Rep("C14", "two runs on the same input print different output", ""))
     /\ (ev.garbled = <<>> \/ Rep("C14", "a reported line does not carry the record's own text (something that is not in the input is printed)", ev.garbled))
+\* bulk: a log of thousands of distinct records with a few repeats far apart (the model's Reported over such a
+\* sequence is not evaluated line by line: the harness counts, the invariant states what the counts must be)
+C14Bulk == ev.ev = "bulk" =>
+    /\ (ev.exit = 0 \/ Rep("C14", "aa-log failed (non-zero exit / crash) on an input it must get through", ev.exit))
+    /\ ((ev.shown = ev.distinct /\ ev.repeatedshown = 1 /\ ev.inorder)
+          \/ Rep("C14", "reported records are not exactly the matching records, once each, in input order", [distinct |-> ev.distinct, shown |-> ev.shown, timesRepeatedShown |-> ev.repeatedshown, inorder |-> ev.inorder]))
 
 \* C15: the map of a record holds the record's own values; only profile / name / target may be
 \* rewritten, and only by a generalisation that still covers the original (fact established by the
